@@ -63,6 +63,10 @@ type inst struct {
 	named   func() *cluster.Validator                                                 // validator the object names (how the endpoint resolves the key); nil = none of the cluster
 	unknown func()                                                                    // make the object name a validator outside the cluster; nil = not expressible
 	blocks  bool                                                                      // the endpoint blocks after admitting (needs a context timeout)
+	// multi-entry submissions (nil = the endpoint takes one object): item is this object's entry carrying
+	// sig, many submits several entries (of instances of the same type) in ONE validatorapi call
+	item func(sig eth2p0.BLSSignature) any
+	many func(ctx context.Context, n *cluster.Node, items []any) error
 }
 
 type params struct {
@@ -177,6 +181,14 @@ func mkAttDeneb(e *env, p params) *inst {
 	in.submit = func(ctx context.Context, n *cluster.Node, sig eth2p0.BLSSignature) error {
 		return n.VAPI.SubmitAttestations(ctx, &eth2api.SubmitAttestationsOpts{Attestations: []*eth2spec.VersionedAttestation{att(sig)}})
 	}
+	in.item = func(sig eth2p0.BLSSignature) any { return att(sig) }
+	in.many = func(ctx context.Context, n *cluster.Node, items []any) error {
+		var l []*eth2spec.VersionedAttestation
+		for _, it := range items {
+			l = append(l, it.(*eth2spec.VersionedAttestation))
+		}
+		return n.VAPI.SubmitAttestations(ctx, &eth2api.SubmitAttestationsOpts{Attestations: l})
+	}
 	in.named = func() *cluster.Validator { // the endpoint resolves the validator by (slot, committee, position in committee)
 		if uint64(d.Slot) != p.slot {
 			return nil
@@ -217,6 +229,14 @@ func mkAttElectra(e *env, p params) *inst {
 	in.prep = e.prepAttester(p.slot)
 	in.submit = func(ctx context.Context, n *cluster.Node, sig eth2p0.BLSSignature) error {
 		return n.VAPI.SubmitAttestations(ctx, &eth2api.SubmitAttestationsOpts{Attestations: []*eth2spec.VersionedAttestation{att(sig)}})
+	}
+	in.item = func(sig eth2p0.BLSSignature) any { return att(sig) }
+	in.many = func(ctx context.Context, n *cluster.Node, items []any) error {
+		var l []*eth2spec.VersionedAttestation
+		for _, it := range items {
+			l = append(l, it.(*eth2spec.VersionedAttestation))
+		}
+		return n.VAPI.SubmitAttestations(ctx, &eth2api.SubmitAttestationsOpts{Attestations: l})
 	}
 	in.named = func() *cluster.Validator {
 		if uint64(d.Slot) != p.slot {
@@ -312,6 +332,15 @@ func mkBeaconSelection(e *env, p params) *inst {
 		_, err := n.VAPI.BeaconCommitteeSelections(ctx, &eth2api.BeaconCommitteeSelectionsOpts{Selections: []*eth2v1.BeaconCommitteeSelection{sel(sig)}})
 		return err
 	}
+	in.item = func(sig eth2p0.BLSSignature) any { return sel(sig) }
+	in.many = func(ctx context.Context, n *cluster.Node, items []any) error {
+		var l []*eth2v1.BeaconCommitteeSelection
+		for _, it := range items {
+			l = append(l, it.(*eth2v1.BeaconCommitteeSelection))
+		}
+		_, err := n.VAPI.BeaconCommitteeSelections(ctx, &eth2api.BeaconCommitteeSelectionsOpts{Selections: l})
+		return err
+	}
 	in.named = func() *cluster.Validator { return e.valByIndex(s.ValidatorIndex) }
 	in.unknown = func() { s.ValidatorIndex = 9999 }
 	return in
@@ -327,6 +356,14 @@ func mkSyncMessage(e *env, p params) *inst {
 	in.wrap = func(sig eth2p0.BLSSignature) core.SignedData { return core.NewSignedSyncMessage(msg(sig)) }
 	in.submit = func(ctx context.Context, n *cluster.Node, sig eth2p0.BLSSignature) error {
 		return n.VAPI.SubmitSyncCommitteeMessages(ctx, []*altair.SyncCommitteeMessage{msg(sig)})
+	}
+	in.item = func(sig eth2p0.BLSSignature) any { return msg(sig) }
+	in.many = func(ctx context.Context, n *cluster.Node, items []any) error {
+		var l []*altair.SyncCommitteeMessage
+		for _, it := range items {
+			l = append(l, it.(*altair.SyncCommitteeMessage))
+		}
+		return n.VAPI.SubmitSyncCommitteeMessages(ctx, l)
 	}
 	in.named = func() *cluster.Validator { return e.valByIndex(m.ValidatorIndex) }
 	in.unknown = func() { m.ValidatorIndex = 9999 }
@@ -353,6 +390,15 @@ func mkSyncSelection(e *env, p params) *inst {
 	in.wrap = func(sig eth2p0.BLSSignature) core.SignedData { return core.NewSyncCommitteeSelection(sel(sig)) }
 	in.submit = func(ctx context.Context, n *cluster.Node, sig eth2p0.BLSSignature) error {
 		_, err := n.VAPI.SyncCommitteeSelections(ctx, &eth2api.SyncCommitteeSelectionsOpts{Selections: []*eth2v1.SyncCommitteeSelection{sel(sig)}})
+		return err
+	}
+	in.item = func(sig eth2p0.BLSSignature) any { return sel(sig) }
+	in.many = func(ctx context.Context, n *cluster.Node, items []any) error {
+		var l []*eth2v1.SyncCommitteeSelection
+		for _, it := range items {
+			l = append(l, it.(*eth2v1.SyncCommitteeSelection))
+		}
+		_, err := n.VAPI.SyncCommitteeSelections(ctx, &eth2api.SyncCommitteeSelectionsOpts{Selections: l})
 		return err
 	}
 	in.named = func() *cluster.Validator { return e.valByIndex(s.ValidatorIndex) }
@@ -405,6 +451,14 @@ func mkAggProof(legacy bool) func(e *env, p params) *inst {
 		in.submit = func(ctx context.Context, n *cluster.Node, sig eth2p0.BLSSignature) error {
 			return n.VAPI.SubmitAggregateAttestations(ctx, &eth2api.SubmitAggregateAttestationsOpts{SignedAggregateAndProofs: []*eth2spec.VersionedSignedAggregateAndProof{ver(sig)}})
 		}
+		in.item = func(sig eth2p0.BLSSignature) any { return ver(sig) }
+		in.many = func(ctx context.Context, n *cluster.Node, items []any) error {
+			var l []*eth2spec.VersionedSignedAggregateAndProof
+			for _, it := range items {
+				l = append(l, it.(*eth2spec.VersionedSignedAggregateAndProof))
+			}
+			return n.VAPI.SubmitAggregateAttestations(ctx, &eth2api.SubmitAggregateAttestationsOpts{SignedAggregateAndProofs: l})
+		}
 		in.named = func() *cluster.Validator { return e.valByIndex(ap.AggregatorIndex) }
 		in.unknown = func() { ap.AggregatorIndex = 9999 }
 		return in
@@ -437,6 +491,14 @@ func mkContribution(e *env, p params) *inst {
 	}
 	in.submit = func(ctx context.Context, n *cluster.Node, sig eth2p0.BLSSignature) error {
 		return n.VAPI.SubmitSyncCommitteeContributions(ctx, []*altair.SignedContributionAndProof{signed(sig)})
+	}
+	in.item = func(sig eth2p0.BLSSignature) any { return signed(sig) }
+	in.many = func(ctx context.Context, n *cluster.Node, items []any) error {
+		var l []*altair.SignedContributionAndProof
+		for _, it := range items {
+			l = append(l, it.(*altair.SignedContributionAndProof))
+		}
+		return n.VAPI.SubmitSyncCommitteeContributions(ctx, l)
 	}
 	in.named = func() *cluster.Validator { return e.valByIndex(cp.AggregatorIndex) }
 	in.unknown = func() { cp.AggregatorIndex = 9999 }
